@@ -36,6 +36,11 @@ package p15
 //     both dumps, while no goroutine other than the loop and handlers parked below handleMsg has any frame
 //     in package protocol/fetcher (the fetcher's channels are private to the package: nobody is left to
 //     take what the loop offers or to offer what it waits for).
+//       - F = chain.(*chain).AcquireInsert (the ONE mutex wait that qualifies: the chain's insert lock): every function that
+//     takes this lock releases it before returning (chainBridge.InsertChain / AddAccountBlocks, the broadcaster, the pillar
+//     worker's generators, chain.Init, the harness' own inserts), so the holder has one of them on its stack; releasers are
+//     goroutines with such a frame that are not themselves waiting for the lock. None in both dumps = the lock was left
+//     locked by a function that returned.
 //       - F = protocol.(*ProtocolManager).syncTransactions: releaser protocol.(*ProtocolManager).txsyncLoop.
 //       - any other F: not decided (stays inconclusive).
 //
@@ -136,8 +141,12 @@ func shortFn(fn string) string {
 
 // parkedBelowHandleMsg: clauses 1 and 2 of the rule. It returns the function the handler is parked in.
 func parkedBelowHandleMsg(d gdump) (string, bool) {
+	mutexWait := false
 	switch d.state {
 	case "chan send", "chan receive", "select", "select (no cases)":
+	case "sync.Mutex.Lock", "semacquire":
+		// a mutex wait qualifies for ONE lock only: the chain's insert lock (see releaserExists)
+		mutexWait = true
 	default:
 		return "", false
 	}
@@ -153,16 +162,40 @@ func parkedBelowHandleMsg(d gdump) (string, bool) {
 	}
 	for i := 0; i < hm; i++ {
 		fn := d.frames[i].fn
-		if strings.HasPrefix(fn, "runtime.") {
+		if strings.HasPrefix(fn, "runtime.") || strings.HasPrefix(fn, "sync.") || strings.HasPrefix(fn, "internal/sync.") {
 			continue
 		}
 		if strings.Contains(fn, "p2p.(*MsgPipeRW).") || strings.Contains(fn, "p15.(*nodeRW).") {
+			return "", false
+		}
+		if mutexWait && !strings.HasSuffix(fn, acquireInsertFn) {
 			return "", false
 		}
 		return shortFn(fn), true
 	}
 	return "", false
 }
+
+const acquireInsertFn = "chain.(*chain).AcquireInsert"
+
+// waitsForInsertLock: the goroutine is parked in the mutex of the chain's insert lock.
+func waitsForInsertLock(d gdump) bool {
+	if d.state != "sync.Mutex.Lock" && d.state != "semacquire" {
+		return false
+	}
+	for _, f := range d.frames {
+		if strings.HasPrefix(f.fn, "runtime.") || strings.HasPrefix(f.fn, "sync.") || strings.HasPrefix(f.fn, "internal/sync.") {
+			continue
+		}
+		return strings.HasSuffix(f.fn, acquireInsertFn)
+	}
+	return false
+}
+
+// insertLockHolderFns: every function of the repository (and of the harness) that takes the insert lock releases it before
+// it returns; a goroutine that holds the lock therefore has one of them on its stack.
+var insertLockHolderFns = []string{"protocol.(*chainBridge).", "protocol.(*broadcaster).", "pillar.(*worker).", "chain.(*chain).Init",
+	"zenon/mock.", "verifharness/sim.(*Node)."}
 
 func hasFrame(d gdump, pred func(fn string) bool) bool {
 	for _, f := range d.frames {
@@ -203,6 +236,22 @@ func releaserExists(fn string, self int64, all []gdump) (exists bool, decided bo
 			return false, true, ""
 		}
 		isReleaser = func(f string) bool { return strings.Contains(f, "protocol/fetcher.(*Fetcher).loop") }
+	case fn == acquireInsertFn:
+		// the insert lock: whoever holds it is inside one of the functions that take it; goroutines that wait for it
+		// themselves release nobody
+		for _, d := range all {
+			if d.id == self || waitsForInsertLock(d) {
+				continue
+			}
+			for _, f := range d.frames {
+				for _, h := range insertLockHolderFns {
+					if strings.Contains(f.fn, h) {
+						return true, true, fmt.Sprintf("goroutine %d [%s] is inside %s", d.id, d.state, shortFn(f.fn))
+					}
+				}
+			}
+		}
+		return false, true, ""
 	case fn == "protocol.(*ProtocolManager).syncTransactions":
 		isReleaser = func(f string) bool { return strings.Contains(f, "protocol.(*ProtocolManager).txsyncLoop") }
 	default:
